@@ -6,6 +6,7 @@ COMMON_ASSUMPTIONS = [
 ]
 
 CHECKS = {
+    "RIBQ": dict(runs=[dict(pkg="rib", harness="VfRIB_StepQuick", reach=["end","acked","failed","held","error","pre-built"], opts=dict(budget_s=60))], level_text="", level_note=""),
     "SMOKE": dict(runs=[dict(pkg="rib", harness="VfSmoke_AddNH", reach=["end","zero","installed"])], level_text="", level_note=""),
     "C05": dict(
         runs=[
